@@ -81,7 +81,7 @@ func genRoundtrip(tier string, seed uint64) {
 	if tier == "thorough" {
 		n = 800
 	}
-	for _, a := range atlases {
+	for _, a := range zooAtlases() {
 		for _, t := range roundtripTypes(a) {
 			for i := 0; i < n; i++ {
 				for _, f := range []string{"cbor", "json"} {
@@ -98,4 +98,67 @@ func genRoundtrip(tier string, seed uint64) {
 		}
 	}
 	_ = strings.Join
+}
+
+// unmbytes <fmt> <aid> <tid> <hex>: Unmarshal foreign bytes into a fresh variable of the type
+func opUnmBytes(p []string) string {
+	a := atlasByID(p[1])
+	id, _ := strconv.Atoi(p[2])
+	t := typeByID[id]
+	data, err := parseHexOrDash(p[3])
+	if err != nil {
+		return "bad-op"
+	}
+	var dopts refmt.DecodeOptions = cbor.DecodeOptions{}
+	if p[0] == "json" {
+		dopts = json.DecodeOptions{}
+	}
+	dst := reflect.New(t)
+	uerr, up := safely(func() error { return refmt.UnmarshalAtlased(dopts, data, dst.Interface(), a.atl) })
+	if up {
+		return "I=-/panic O=viol:panic"
+	}
+	if uerr != nil {
+		return "I=-/err O=ok"
+	}
+	return fmt.Sprintf("I=%s/ok O=ok", dumpValue(dst.Elem()))
+}
+
+func genTags(tier string, seed uint64) {
+	emitDefs()
+	r := &rng{s: seed}
+	n := 60
+	if tier == "thorough" {
+		n = 2000
+	}
+	var ts []reflect.Type
+	for _, v := range []interface{}{Inner{}, (*Inner)(nil), (***Inner)(nil), []*Inner{}, WithPtr{}, Emb{}, HasShape{}, []Shape{}, TrNum(0), []TrNum{},
+		[2]TrBytes{}, map[string]*Rec{}, []interface{}{}, map[string]interface{}{}, Circle{}, map[TrNum]int{}} {
+		ts = append(ts, reflect.TypeOf(v))
+	}
+	ts = append(ts, reflect.TypeOf((*interface{})(nil)).Elem())
+	for _, aid := range []int{2, 3} {
+		for _, t := range ts {
+			for i := 0; i < n; i++ {
+				v := genValue(r, t, genOpts{depth: 2 + r.intn(3), roundtrip: true, tagged: true, cbor: true})
+				emit("roundtrip cbor %d %d nil - %s", aid, tid(t), v)
+			}
+		}
+	}
+	// foreign CBOR: registered and unregistered tags on every item kind, into an untyped slot and into typed slots
+	items := []string{"00", "20", "40", "4101", "60", "6161", "623432", "80", "8101", "a0", "a1617801", "a26178016179616b", "f4", "f6", "fb3ff8000000000000", "9fff", "bfff", "420102"}
+	tags := []uint64{0, 23, 24, 25, 100, 1100, 2100, 65536, 1 << 32}
+	ifaceT := tid(reflect.TypeOf((*interface{})(nil)).Elem())
+	for _, aid := range []int{0, 2, 3} {
+		for _, tg := range tags {
+			for _, it := range items {
+				hx := fmt.Sprintf("%x", headBytes(0xc0, tg, 0)) + it
+				emit("unmbytes cbor %d %d %s", aid, ifaceT, hx)
+				emit("unmbytes cbor %d %d %s", aid, tid(reflect.TypeOf([]interface{}{})), "81"+hx)
+				emit("unmbytes cbor %d %d %s", aid, tid(reflect.TypeOf(map[string]interface{}{})), "a1616b"+hx)
+				emit("unmbytes cbor %d %d %s", aid, tid(reflect.TypeOf(Inner{})), hx)
+				emit("unmbytes cbor %d %d %s", aid, tid(reflect.TypeOf(TrNum(0))), hx)
+			}
+		}
+	}
 }
